@@ -319,6 +319,13 @@ func Adv(pj *simdjson.ParsedJson) (roots []*ref.Value, err error) {
 				return err
 			}
 			roots = append(roots, v)
+			if ct != simdjson.TypeObject && ct != simdjson.TypeArray {
+				// a root holds one value: after a scalar (e.g. a container replaced by null)
+				// the root's own iterator has nothing more
+				if t2 := ri.Advance(); t2 != simdjson.TypeNone {
+					return fmt.Errorf("root iterator yields %v after the root's only value", t2)
+				}
+			}
 		}
 	})
 	return
@@ -341,7 +348,9 @@ func advValue(it *simdjson.Iter, t simdjson.Type, steps *int, bound int) (*ref.V
 	open := func(it *simdjson.Iter, t simdjson.Type) (*ref.Value, error) {
 		switch t {
 		case simdjson.TypeObject:
-			o, err := it.Object(nil)
+			// destinations are recycled across documents (per nesting depth): an Object/Array
+			// handed back in must be rebound completely, whatever it pointed at before
+			o, err := it.Object(dstObj(len(stack)))
 			if err != nil {
 				return nil, err
 			}
@@ -349,7 +358,7 @@ func advValue(it *simdjson.Iter, t simdjson.Type, steps *int, bound int) (*ref.V
 			stack = append(stack, advFrame{isObj: true, obj: o, v: v})
 			return nil, nil
 		case simdjson.TypeArray:
-			a, err := it.Array(nil)
+			a, err := it.Array(dstArr(len(stack)))
 			if err != nil {
 				return nil, err
 			}
@@ -727,4 +736,37 @@ func clip(b []byte) string {
 		return string(b[:40]) + "..."
 	}
 	return string(b)
+}
+
+// Recycled Object/Array destinations, one per nesting depth (0..63), shared by
+// all Advance-route walks of this process; deeper levels get nil (fresh).
+var (
+	objPool [64]*simdjson.Object
+	arrPool [64]*simdjson.Array
+)
+
+// SharedDst enables the recycled destinations. Only single-threaded drivers
+// may switch it on (the pools are per process, not per goroutine).
+var SharedDst bool
+
+func dstObj(depth int) *simdjson.Object {
+	if !SharedDst || depth >= len(objPool) {
+		return nil
+	}
+	if objPool[depth] == nil {
+		objPool[depth] = &simdjson.Object{}
+		return nil // first use at this depth: library allocates; next time the recycled one is used
+	}
+	return objPool[depth]
+}
+
+func dstArr(depth int) *simdjson.Array {
+	if !SharedDst || depth >= len(arrPool) {
+		return nil
+	}
+	if arrPool[depth] == nil {
+		arrPool[depth] = &simdjson.Array{}
+		return nil
+	}
+	return arrPool[depth]
 }
